@@ -547,6 +547,33 @@ fn report(c: &C16Case) -> CaseReport {
             Ok(_) => return Err(Fail::new(format!("B|strict_accepts|{}", key_devs.join("+")), format!("open_strict accepts an image with deviations {:?}", names))),
             Err(_) => {}
         }
+        // the path-based entry points take the same options: one case in eight goes through
+        // a real file (OpenOptions::open / open_rw with and without strict())
+        if fnv64(&b_img) % 8 == 0 {
+            let scratch = std::env::var("VERIF_SCRATCH").unwrap_or_else(|_| "/verif/harness/target/scratch".to_string());
+            let dir = std::path::PathBuf::from(scratch).join("c16");
+            let _ = std::fs::create_dir_all(&dir);
+            let path = dir.join(format!("w{}-{:x}.cfb", std::process::id(), fnv64(format!("{:?}", std::thread::current().id()).as_bytes())));
+            if std::fs::write(&path, &b_img).is_ok() {
+                rep.classes.push("B_path_based_entry_points".into());
+                let results = guard("path_open", || {
+                    [
+                        ("OpenOptions::new().open(path)", cfb::OpenOptions::new().open(&path).is_ok(), true),
+                        ("OpenOptions::new().open_rw(path)", cfb::OpenOptions::new().open_rw(&path).is_ok(), true),
+                        ("OpenOptions::new().strict().open(path)", cfb::OpenOptions::new().strict().open(&path).is_ok(), false),
+                        ("OpenOptions::new().strict().open_rw(path)", cfb::OpenOptions::new().strict().open_rw(&path).is_ok(), false),
+                        ("cfb::open(path)", cfb::open(&path).is_ok(), true),
+                        ("cfb::open_rw(path)", cfb::open_rw(&path).is_ok(), true),
+                    ]
+                });
+                let _ = std::fs::remove_file(&path);
+                for (what, ok, want) in results? {
+                    if ok != want {
+                        return Err(Fail::new(format!("B|path_entry_point|{}|{}", what, if want { "rejects" } else { "accepts" }), format!("{} {} an image with deviations {:?} that the in-memory {} open {}", what, if ok { "accepts" } else { "rejects" }, names, if want { "permissive" } else { "strict" }, if want { "accepts" } else { "rejects" })));
+                    }
+                }
+            }
+        }
         if applied.len() >= 2 || c.lib_ops.is_none() {
             rep.nontrivial = true;
         }
@@ -702,7 +729,7 @@ pub fn def() -> PropDef {
     PropDef {
         id: "C16",
         level: "exploration",
-        rule: "base image = synthesized foreign layout (incl. DIFAT sectors via surplus FAT sectors) or an image written by the library from a generated history. Direction A: 0-3 field/byte mutations (header reserved bytes, minor version, transaction signature, colours, metadata, sizes, V3 upper size bits, FAT cells of free sectors, name bytes, any byte); if open_strict accepts, open must accept and the two dumps (all entry fields, per-stream bytes or error kind) must be equal. Direction B: 1-3 of the 23 documented-deviation injectors applied at generated places, singly and combined; open must accept with the full dump equal to the model of the undamaged image, open_strict must reject. Non-trivial = (A) a mutated image that strict accepts and that has >=2 FAT sectors or a red node, or (B) >=2 deviations combined or a deviation on a foreign layout; distinct = distinct case JSON / image hash.",
+        rule: "base image = synthesized foreign layout (incl. DIFAT sectors via surplus FAT sectors) or an image written by the library from a generated history. Direction A: 0-3 field/byte mutations (header reserved bytes, minor version, transaction signature, colours, metadata, sizes, V3 upper size bits, FAT cells of free sectors, name bytes, any byte); if open_strict accepts, open must accept and the two dumps (all entry fields, per-stream bytes or error kind) must be equal. Direction B: 1-3 of the 23 documented-deviation injectors applied at generated places, singly and combined; open must accept with the full dump equal to the model of the undamaged image, open_strict must reject; one case in eight is also written to a real file and opened through the path-based entry points (OpenOptions::open / open_rw with and without strict(), cfb::open, cfb::open_rw), which must agree with the in-memory ones. Non-trivial = (A) a mutated image that strict accepts and that has >=2 FAT sectors or a red node, or (B) >=2 deviations combined or a deviation on a foreign layout; distinct = distinct case JSON / image hash.",
         assumptions: &["the 23 injectors transcribe the deviations the library's comments and tests document as tolerated", "deviations are located on the base image with the independent parser"],
         quick_cases: 2000,
         thorough_cases: 25000,
